@@ -111,6 +111,27 @@ fn t_c06(rng: &mut Rng, g: &mut GenCfg, w: &mut WorldCfg) {
     w.oracles = Some(Oracles { dump: true, reverse: true, ..Oracles::none() });
 }
 
+fn t_c08(rng: &mut Rng, g: &mut GenCfg, w: &mut WorldCfg) {
+    base_removals(rng, g);
+    g.pct_invalid = *rng.pick(&[0, 5]);
+    g.n_ops = rng.range(6, 26);
+    g.max_text_len = *rng.pick(&[6, 12, 20, 40]);
+    g.w[W_PROTECT] = 0;
+    if rng.chance(1, 3) {
+        g.restart_formats = vec![*rng.pick(&[Format::JsonInline, Format::Cbor])];
+        g.w[W_RESTART] = 2;
+    }
+    w.ids_every = 0;
+    w.queries_every = *rng.pick(&[2, 3, 5]);
+    w.query_budget = *rng.pick(&[150, 300]);
+    w.mutate_via_query = rng.chance(1, 2);
+    // (to look at the quarantined shapes: VERIF_C08_FLAGS=optional,indirect,multisel)
+    if let Ok(f) = std::env::var("VERIF_C08_FLAGS") {
+        w.query_flags = f.split(',').map(|x| x.trim().to_string()).filter(|x| !x.is_empty()).collect();
+    }
+    w.oracles = Some(Oracles { dump: true, forward: true, ..Oracles::none() });
+}
+
 fn t_c10(rng: &mut Rng, g: &mut GenCfg, w: &mut WorldCfg) {
     g.w[W_INSERT_DATA] = 25;
     g.w[W_ADD_DATASET] = 6;
@@ -197,7 +218,9 @@ fn t_c18(rng: &mut Rng, g: &mut GenCfg, w: &mut WorldCfg) {
     g.wsel = [40, 1, 0, 0, 0, 2, 14, 5, 5, 3];
     g.pct_invalid = 0;
     g.n_ops = rng.range(5, 16);
-    g.max_text_len = *rng.pick(&[3, 8, 12, 20, 40]);
+    g.max_text_len = *rng.pick(&[3, 8, 12, 20, 40, 45, 60]);
+    // automatic mode switches from text to checksum at 40 codepoints
+    g.pref_lens = vec![39, 40, 41];
     g.n_res_ids = rng.range(1, 2);
     g.w[W_PROTECT] = *rng.pick(&[6, 10]);
     g.w[W_REMOVE_ANNOTATION] = *rng.pick(&[0, 2]);
@@ -277,6 +300,16 @@ pub fn profiles() -> Vec<Profile> {
             quick_runs: 1500,
             thorough_runs: 100000,
             rule: STATE_RULE,
+        },
+        Profile {
+            property: "C08",
+            engine: "stamsim-lockstep",
+            owners: &["C08"],
+            level: "exploration",
+            tweak: t_c08,
+            quick_runs: 1200,
+            thorough_runs: 80000,
+            rule: "one run = one seeded history (insertions, removals of every kind, optional restart) in lock-step with the reference model; every few steps the query laws are evaluated on the store as it then is: conjunction in every order == intersection of the constraints taken alone, union == union of branches without duplicates, LIMIT == slice of the unlimited sequence, sub-queries == nested iteration with the variable bound, printed STAMQL text parsed again == programmatic query; non-trivial and distinct as for the other lock-step checks",
         },
         Profile {
             property: "C10",
